@@ -22,6 +22,7 @@ TS(s) == <<[k |-> "s", s |-> s, c |-> <<>>, n |-> 0]>>
 TQ(c) == <<[k |-> "q", s |-> "", c |-> c, n |-> 0]>>
 TR(c) == <<[k |-> "r", s |-> "", c |-> c, n |-> 0]>>
 TB(n) == <<[k |-> "b", s |-> "", c |-> <<>>, n |-> n]>>
+TX(c) == <<[k |-> "x", s |-> "", c |-> c, n |-> 0]>>      \* the bytes c in hexadecimal
 TNL   == TR(<<NL>>)
 
 RECURSIVE RenderFs(_)
@@ -35,6 +36,8 @@ RenderC(cmd) ==
     \* the body follows the line that holds the operator: only used where
     \* that line ends right after the filters (forms sink, varhere)
     [] cmd.k = "here" -> TS("cat <<'EOF'") \o RenderFs(cmd.fs)
+    [] cmd.k = "emitb" -> TS("emitb ") \o TX(cmd.c)
+    [] cmd.k = "emito" -> TS("emito " \o ToString(cmd.c[1]) \o " " \o ToString(cmd.n))
 RenderW(word) ==
   IF word.k = "lit" THEN TQ(word.c)
   ELSE TS("\"$(") \o RenderC(word.ch[1]) \o TS(")\"")
@@ -51,6 +54,13 @@ Render(sc) ==
     [] sc.k = "file" -> RenderC(a) \o TS(" > /tmp/f; csink t 0 < /tmp/f")
     [] sc.k = "var"  -> TS("v=") \o RenderW(a) \o TS("; val t \"$v\" 0")
     [] sc.k = "arg"  -> TS("val t ") \o RenderW(a) \o TS(" 0")
+    [] sc.k = "varu" -> TS("v=") \o RenderW(a) \o TS("; valu t \"$v\" 0")
+    [] sc.k = "closed" ->
+         TS("{ ") \o RenderC(a) \o TS(" >&3; } 3>/tmp/f")
+         \o (IF sc.n % 2 = 1 THEN TS(" <&-") ELSE <<>>)
+         \o (IF (sc.n \div 2) % 2 = 1 THEN TS(" >&-") ELSE <<>>)
+         \o (IF (sc.n \div 4) % 2 = 1 THEN TS(" 2>&-") ELSE <<>>)
+         \o TS("; csink t 0 < /tmp/f")
     [] sc.k = "varhere" -> TS("v=$(") \o RenderC(a) \o HereBody(a) \o TS("); val t \"$v\" 0")
     [] sc.k = "hword" -> TS("csink t 0 <<EOF") \o TNL \o TS("$(") \o RenderC(a.ch[1]) \o TS(")")
                             \o TNL \o TS("EOF") \o TNL
@@ -112,7 +122,38 @@ Reads   == { FRead(CPipe(E(n, t), fs), r) :
 Pars    == { FPar(CPipe(E(n, T0), f1), CPipe(E(m, <<LX>>), f2)) :
                n \in {513, 2049}, m \in {1025, 4096}, f1 \in {<<>>, <<"cat">>}, f2 \in {<<>>, <<"scat 7">>} }
 
-Scenarios == Sinks \cup Files \cup Vars \cup Nested \cup Heres \cup Reads \cup Pars
+\* descriptors 0 / 1 / 2 closed when a pipeline of 2-4 stages starts
+ClosedSizes == {0, 1, 513, 1025, 4096} \cup RSizes
+Closeds == { FClosed(CPipe(E(n, t), fs), code) :
+               n \in ClosedSizes, t \in {<<LX, NL>>},
+               fs \in {<<"cat">>, <<"cat", "cat">>, <<"scat 7", "cat">>, <<"cat", "cat", "cat">>},
+               code \in {1, 2, 3, 4, 7} }
+           \cup { FClosed(CPipe(E(n, T0), fs), code) :
+               n \in {17, 2049}, fs \in {<<>>, <<"cat", "scat 513">>}, code \in {1, 2, 3} }
+
+\* output of a command substitution that is not valid UTF-8: markers (bytes
+\* that form no character) in the middle, at the start, before the trailing
+\* newlines, in a nested substitution, near the start / in the middle / at the
+\* end of a payload larger than the pipe; and the same bytes through plain
+\* pipes (which are transparent)
+Marks == { <<255>>, <<192>>, <<128>>, <<227, 129>> }
+LA == <<97, 98>>   LC == <<99, 100>>
+Invalids ==
+  { FVarU(WSub(CEmitB(a \o m \o b))) :
+      a \in {<<>>, LA, <<NL>>}, m \in Marks, b \in {<<>>, LC, <<NL, NL>>, LC \o <<NL>>, <<NL>> \o LC \o <<NL, NL>>} }
+  \cup { FVarU(WSub(CEmitB(LA \o m \o LC \o m \o <<LX, NL>>))) : m \in Marks }
+  \cup { FVarU(WSub(CEmit(0, WSub(CEmitB(LA \o m \o LC \o <<NL>>))))) : m \in Marks }
+  \cup { FVarU(WSub(CPipe(CSeq(CEmitB(m), E(n, t)), fs))) :
+            m \in {<<255>>, <<227, 129>>}, n \in {17, 513, 1025, 3000} \cup RSizes, t \in {T0, <<NL, NL>>},
+            fs \in {<<>>, <<"cat">>} }
+  \cup { FVarU(WSub(CSeq(E(n, T0), CSeq(CEmitB(m), CEmitO(n, k))))) :
+            m \in {<<255>>, <<192>>}, n \in {5, 600, 1024}, k \in {1, 1500} }
+  \cup { FVarU(WSub(CSeq(E(n, T0), CEmitB(m \o t)))) :
+            m \in {<<255>>, <<128>>}, n \in {512, 2049}, t \in {<<>>, <<NL>>, <<LX, NL, NL>>} }
+  \cup { FSink(CPipe(CSeq(E(n, T0), CEmitB(<<LX>> \o m \o <<NL>>)), fs), FALSE) :
+            m \in Marks, n \in {0, 1025}, fs \in FewFilterSeqs }
+
+Scenarios == Closeds \cup Invalids \cup Sinks \cup Files \cup Vars \cup Nested \cup Heres \cup Reads \cup Pars
 
 \* only terms whose meaning is defined are generated
 Defined(sc) == \A o \in Expect(sc) : o.off >= 0
@@ -122,7 +163,7 @@ Init == sc \in Scenarios /\ done = FALSE
 Next == ~done /\ done' = TRUE /\ UNCHANGED sc
 Spec == Init /\ [][Next]_<<sc, done>>
 
-Obs2Json(o) == [tag |-> o.tag, off |-> o.off, len |-> o.rep.len, fb |-> o.rep.fb, rest |-> o.rep.rest]
+Obs2Json(o) == [tag |-> o.tag, off |-> o.off, reps |-> o.reps]
 
 \* printed once per scenario (in its initial state)
 Emit ==
